@@ -25,6 +25,7 @@ func main() {
 	commands["realclock"] = cmdRealClock
 	commands["upgrade"] = cmdUpgrade
 	commands["apicancel"] = cmdApiCancel
+	commands["ctxiow"] = cmdCtxIOW
 	commands["acthelper"] = cmdActHelper
 	if len(os.Args) < 2 {
 		fmt.Fprintln(os.Stderr, "usage: vdriver <command> [flags]")
